@@ -13,6 +13,10 @@ CHECKS = {
    technique="runtime monitoring: output read back by an independent RTF reader and compared with the input frame; conservation hook on the three paginate() methods",
    text="For every generated table (all strategies, nrow 1..50, wrapped rows, header/footnote/source variants, single and multi-section) the parsed data rows of all pages, concatenated, must equal the DataFrame's display texts in order; every table row must be classifiable by sentinel; a hook on DefaultPaginationStrategy/PageByStrategy/SublineStrategy.paginate asserts that the page slices partition the frame. Includes a completely enumerated rows x nrow x strategy x header grid.",
    note="trusted: reader; sentinel tagging of one key column per table; group_by absent (C13)"),
+ "C08": dict(cat="exploration", ref="5/C08",
+   technique="runtime monitoring: \\cellx vectors of every parsed table row compared with the configured table width and the proportional division",
+   text="Generated tables (1..12 columns, explicit/default relative widths, custom table widths, all header modes, page_by/subline_by removing columns at any position, table footnote/source, multi-section documents, components reused from an earlier document) are encoded by the real library; every parsed row must end at round(col_width*1440) +-1, data rows must divide that width in proportion to the displayed columns' col_rel_width, and header rows without own widths must line up cell by cell with the data columns.",
+   note="trusted: reader; 1 twip tolerance; headers with own widths / spanning rows only need the right edge"),
  "C10": dict(cat="exploration", ref="5/C10",
    technique="runtime monitoring: bytes of the file written by write_rtf decoded by an independent byte-level RTF reader and compared with the input text",
    text="The real write_rtf writes documents whose body cells sweep the Unicode scalar values (thorough: all 1.1M minus controls/metacharacters, as single characters and packed 32 per cell; quick: U+0020..U+2FFF, boundary points and a stratified sample) with conversion on and off, and whose other text positions (header, title, subline, footnote/source as table and paragraph, page_by and subline_by headings, page header/footer) carry Latin-1, boundary and sampled characters; the file BYTES are decoded per RTF rules and must read back as the original text, with every \\u in the signed 16-bit range and its fallback skipped correctly.",
